@@ -192,3 +192,21 @@ package resource
 //@     invariant 0 <= k && k <= len(currentValues) && chanSent(send) == k && !chanClosed(send)
 //@   loop 1:
 //@     invariant !chanClosed(send) && chanSent(send) >= len(currentValues)
+//@ property C20
+//@ // constructors used by the trait models; their bodies (option application, clocks) belong to C01-C09 and are not
+//@ // re-verified here: a new resource is a fresh object and constructing it writes nothing that existed before
+//@ func NewValue(opts) (res)
+//@   trusted
+//@   ensures res != nil && fresh(res)
+//@   modifies nothing
+//@
+//@ // a resource always has a clock (computeConfig installs the wall clock when none is given); reading the clock writes nothing
+//@ callback Clock.Now: modifies nothing
+//@ func (*Value).Clock() (res)
+//@   trusted
+//@   ensures res != nil
+//@   modifies nothing
+//@ func (*Collection).Clock() (res)
+//@   trusted
+//@   ensures res != nil
+//@   modifies nothing
